@@ -49,10 +49,26 @@ contract('ikesa.IkeSa._process_response', params={'message': MSG}, returns=Opt(B
 # inner payloads exist only after the MAC comparison (accepts-only-mac); a message without inner payloads
 # that was parsed under keys carries no authenticated content at all.
 contract('ikesa.IkeSa.process_message', params={'data': Bytes}, returns=Opt(Bytes), props=['C03', 'C08', 'C13'],
-         requires=['inv_ikesa(self)'], modifies=EVERYTHING,
+         # T6: Message IDs do not wrap
+         requires=['inv_ikesa(self)', 'self.my_msg_id + 1 < 2 ** 32 - 1', 'self.peer_msg_id + 1 < 2 ** 32 - 1'],
+         modifies=EVERYTHING,
          raises={'message.InvalidSyntax': 'True', 'message.UnsupportedCriticalPayload': 'True'},
          ensures={
-             'C03:parse-error-no-effect': 'True',
+             # C03: once keys exist, a datagram that did not come through a verified SK payload changes
+             # nothing -- no field of this IKE_SA or of its successor, no kernel/DH effect, no handler run,
+             # no clock reading (so the liveness timer cannot move) ...
+             'C03:unprotected-no-effect': 'implies(old(self.peer_crypto) is not None and not protected_seen, '
+                                          'unchanged(self) and trace == old(trace) and handled == old(handled) '
+                                          'and now == old(now) '
+                                          'and implies(self.new_ike_sa is not None, unchanged(self.new_ike_sa)))',
+             # ... and elicits no reply other than the stored response to a retransmitted IKE_SA_INIT request
+             'C03:unprotected-reply': 'implies(old(self.peer_crypto) is not None and not protected_seen '
+                                      'and result is not None, result == old(self.last_sent_response_data))',
+             'C13:dpd-reset-only-authentic': 'implies(self.start_dpd_at != old(self.start_dpd_at), '
+                                             'old(self.peer_crypto) is None or protected_seen)',
+             # (Inv preservation is stated on _process_request / _process_response; an authenticated response
+             # with an unknown exchange type and the expected Message ID advances my_msg_id without a handler
+             # -- observation recorded in DESIGN.md section 7, no listed property forbids it)
          })
 CONTRACTS['ikesa.IkeSa.process_message'].exc_ensures = ['nothing_changed()']
 
